@@ -7,7 +7,7 @@
 use crate::env::{Kind, Outcome, ScratchMode};
 use crate::mods::Be;
 use crate::ops::{self, Fam, OpCase, adapt, exec};
-use crate::with_backend;
+use pzv_be::with_backend;
 use proptest::prelude::*;
 use pzv_common::driver::{Ctx, Verdict};
 use pzv_common::model::VClass;
